@@ -15,11 +15,11 @@ import time
 import warnings
 
 
-def run_one(ob, r, point, seed):
+def run_one(ob, r, point, seed, typed=None):
     from gsv.kernel import NumKernel, Reject
     from gsv.engine.sym import Unsupported
     from gsv import solvers
-    k = NumKernel(r, point=point, seed=seed)
+    k = NumKernel(r, point=point, seed=seed, typed=typed)
     undo = solvers.install_numeric(ob.solver, r, random.Random(seed))
     err = None
     try:
@@ -39,7 +39,36 @@ def run_one(ob, r, point, seed):
     failed = [g for g in k.goals if not g["ok"]]
     if err:
         failed.append({"label": "exception", "kind": "exception", "ok": False, "detail": err})
-    return {"point": k.draws, "goals": failed, "n_goals": len(k.goals)}
+    out = {"point": k.draws, "goals": failed, "n_goals": len(k.goals)}
+    if typed:
+        out["typed"] = typed
+    return out
+
+
+def run_typed(ob, r, points, base):
+    """Bounded search for a REPRESENTATION dependence: draw integer-valued inputs, hand them to the code as Python ints (arrays of
+    them are integer arrays), and where a goal fails, run the same numbers again as floats.  A point where the goals hold for the
+    floats and fail for the ints is a failing input of the property (2 and 2.0 are the same number); a point where both fail
+    is a degenerate point of the sampled family and is not reported here."""
+    done = 0
+    tries = 0
+    found = []
+    degenerate = 0
+    while done < points and tries < points * 3 + 10:
+        tries += 1
+        res = run_one(ob, r, None, base + 977 * tries, typed="int")
+        if res is None:
+            continue
+        if "skip" in res:
+            return {"points": 0, "failed_points": [], "skipped": res["skip"]}
+        done += 1
+        if res["goals"]:
+            as_float = run_one(ob, r, {n: float(v) for n, v in res["point"].items() if isinstance(v, (int, float))}, base)
+            if as_float is not None and "skip" not in as_float and not as_float["goals"]:
+                found.append(res)
+                break
+            degenerate += 1
+    return {"points": done, "failed_points": found[:1], "degenerate": degenerate}
 
 
 def main(argv):
@@ -56,6 +85,9 @@ def main(argv):
         if ob is None:
             out["results"][oid] = {"points": 0, "failed_points": [], "error": "unknown obligation"}
             continue
+        if req["mode"] == "typed":
+            out["results"][oid] = run_typed(ob, r, req["points"], random.Random("%s|%s|typed" % (oid, req["seed"])).randrange(1 << 30))
+            continue
         failed_points = []
         done = 0
         tries = 0
@@ -65,7 +97,7 @@ def main(argv):
         while done < limit and tries < limit * 3 + 20:
             tries += 1
             if req["mode"] == "replay":
-                res = run_one(ob, r, witness, base)
+                res = run_one(ob, r, witness, base, typed=req.get("typed"))
             elif witness and tries == 1:
                 res = run_one(ob, r, witness, base)
             else:
